@@ -26,7 +26,7 @@ func init() {
 		ID:        "C03",
 		Level:     "exploration",
 		Technique: "differential runtime monitor: parser.Parse / parser.ParseValue of the real library run next to an independent byte-based reference lexer + LL(1) recogniser (ref/syntax); accept/reject, AST (reflection-free adapter), node locations (byte or code-point reading) and source immutability are compared on every input",
-		Rule: "inputs: every token sequence of length 1..4 (thorough: 1..5) over a 37-token alphabet, grammar-generated documents in random and compact layouts, token/byte mutations of those and of the kitchen-sink files, an enumerated lexical corner list in 10 contexts, layouts with multi-byte text and BOMs in ignored positions and strings. " +
+		Rule: "inputs: every token sequence of length 1..4 over a 37-token alphabet (thorough: plus a seed-dependent quarter of length 5; VERIF_C03_FULL5=1 for all 69M), grammar-generated documents in random and compact layouts, token/byte mutations of those and of the kitchen-sink files, an enumerated lexical corner list in 10 contexts, layouts with multi-byte text and BOMs in ignored positions and strings. " +
 			"A case is non-trivial when at least one side accepts it or the reference rejects it at token index >= 2; distinct = distinct hash of the input text",
 		Assumptions: []string{
 			"the dialect of DESIGN.md Appendix A.1 as refined in internal/props/c03/README.md (dialect decisions) is the grammar the library targets",
@@ -44,7 +44,7 @@ func init() {
 		ChildTimeout: func(tier string) time.Duration { return 40 * time.Minute },
 		MinEvals: func(tier string) int {
 			if tier == "thorough" {
-				return 40_000_000
+				return 15_000_000
 			}
 			return 1_500_000
 		},
@@ -266,6 +266,12 @@ func (k *ck) tokenSequences() {
 				end = hi
 			}
 			id := fmt.Sprintf("tok/%d/%d", length, start/tokChunk)
+			// length 5 (thorough only) is sampled: a seed-dependent quarter of
+			// the chunks; lengths 1..4 are always complete
+			if length == 5 && os.Getenv("VERIF_C03_FULL5") == "" && core.NewRNG(c.Seed).Derive(core.HashString("tok5"), start/tokChunk).Intn(4) != 0 {
+				start = end
+				continue
+			}
 			if c.Begin(id) {
 				for i := start; i < end; i++ {
 					s := bytegen.TokenSeq(i, length)
@@ -356,7 +362,7 @@ func (k *ck) genDoc(index uint64, layout int) (text string, tree *nast.Document,
 
 func (k *ck) grammarDocs() {
 	c := k.c
-	n := c.Scale(400, 20000)
+	n := c.Scale(400, 8000)
 	for i := 0; i < n; i++ {
 		for layout := 0; layout < 2; layout++ {
 			id := fmt.Sprintf("gd/%d/%d", i, layout)
@@ -383,7 +389,7 @@ func (k *ck) grammarDocs() {
 		}
 	}
 	// values
-	nv := c.Scale(300, 10000)
+	nv := c.Scale(300, 4000)
 	for i := 0; i < nv; i++ {
 		id := fmt.Sprintf("gv/%d", i)
 		if !c.Begin(id) {
@@ -454,7 +460,7 @@ func kitchenSlice(r *core.RNG, text string) string {
 
 func (k *ck) mutations() {
 	c := k.c
-	n := c.Scale(12000, 300000)
+	n := c.Scale(12000, 100000)
 	for i := 0; i < n; i++ {
 		id := fmt.Sprintf("mut/%d", i)
 		if !c.Begin(id) {
@@ -485,7 +491,7 @@ func (k *ck) mutations() {
 
 func (k *ck) layouts() {
 	c := k.c
-	n := c.Scale(2000, 60000)
+	n := c.Scale(2000, 20000)
 	for i := 0; i < n; i++ {
 		id := fmt.Sprintf("lay/%d", i)
 		if !c.Begin(id) {
